@@ -506,6 +506,39 @@ func (c *Ctx) lengthsOf(fnName string) {
 			}
 		}
 		if set == nil {
+			// `for _, x := range []*Edge{e, newedge, newedge2} { x.SetLength(...) }` in the same block
+			for _, st := range cr.blk {
+				rs, ok := st.(*ast.RangeStmt)
+				if !ok || st.Pos() < cr.pos || rs.Value == nil {
+					continue
+				}
+				lit, ok := unparen(rs.X).(*ast.CompositeLit)
+				if !ok {
+					continue
+				}
+				has := false
+				for _, el := range lit.Elts {
+					if identObj(info, el) == cr.obj {
+						has = true
+					}
+				}
+				if !has {
+					continue
+				}
+				for _, call := range callsIn(rs.Body, false) {
+					if fv, ok := c.settersOf(info, call); ok && fv == "length" {
+						if sel, ok := unparen(call.Fun).(*ast.SelectorExpr); ok && identObj(info, sel.X) == identObj(info, rs.Value) && set == nil {
+							if conds, okc := c.pathConds(info, rs.Body, call, true); okc && len(conds) == 0 {
+								set = call
+							}
+						}
+					}
+				}
+			}
+			if set != nil {
+				c.lengthArg(info, key, set, clause)
+				continue
+			}
 			// handed to an unexported helper that sets the length of the branches it is given
 			for _, s := range cr.blk {
 				if s.Pos() < cr.pos {
